@@ -205,6 +205,235 @@ pub fn requests(ctx: &Ctx) -> Report {
     par_cases(ctx, "requests", n, ctx.secs(25, 500), |i, rng, rep| run_requests_case(i, rng, rep, false))
 }
 
+// ---------------- requests the library composes itself ----------------
+
+/// Requests that are not a 1:1 image of one call: the follow-up pages of a PagedResults search (each
+/// must be the caller's search again: same base, scope, options, filter, attributes and controls,
+/// plus the paging control with the requested size and the cookie last returned), and extended
+/// operations / controls built from the library's typed structs, read back from the wire.
+fn run_composed_case(i: u64, rng: &mut Rng, rep: &mut Report, verbose: bool) {
+    use crate::lanes::c13::{behaviour_server, parse_paged, PAGED_OID};
+    use crate::ber::{Node, CTX, UNIV};
+    let tok = i * 10;
+    let kind = rng.below(3);
+    let replay = json!({"lane":"composed_requests","case":i});
+    // ---- what to do
+    let mut spec = gen::gen_search(rng, tok);
+    let n_entries = 1 + rng.usize(12);
+    let page = 1 + rng.below(5) as i32;
+    spec.base = format!("op={},b=paged{}x{}", tok, n_entries, page);
+    if spec.opts.is_none() || rng.bool() {
+        spec.opts = Some((rng.below(4) as u8, rng.bool(), *rng.pick(&[0, 1, 30, 500, 100_000]), *rng.pick(&[0, 1, 3, 127, 128, 100_000])));
+    }
+    let mut ctrls: Vec<Ctl> = if rng.bool() { gen::gen_req_controls(rng) } else { vec![] };
+    ctrls.retain(|c| c.oid != PAGED_OID.as_bytes());
+    let behind_entries_only = rng.bool();
+    let pm = (rng.bool(), rng.bool(), rng.bool());
+    let pm_vals = (format!("uid=u{},dc=x", rng.below(1000)), format!("old{}", rng.below(1000)), format!("n\u{e9}w{}", rng.below(1000)));
+    let typed_kind = rng.below(6);
+    let authz = format!("dn:cn=proxy{},dc=x", rng.below(100));
+    let rd_attrs: Vec<String> = (0..rng.usize(14)).map(|k| format!("attribute-number-{}", k)).collect();
+    let critical = rng.bool();
+    let rt = runtime(rng.next());
+    let (spec2, ctrls2, pm_vals2, authz2, rd2) = (spec.clone(), ctrls.clone(), pm_vals.clone(), authz.clone(), rd_attrs.clone());
+    let (outcome, seen) = rt.block_on(async move {
+        let c = connect();
+        let mut ldap = c.ldap;
+        let srv = tokio::spawn(behaviour_server(c.server));
+        let outcome: String = match kind {
+            0 => {
+                if !ctrls2.is_empty() {
+                    ldap.with_controls(world::raw_controls(&ctrls2));
+                }
+                ldap.with_search_options(world::search_options(spec2.opts.unwrap()));
+                let adapters: Vec<Box<dyn Adapter<'static, String, Vec<String>>>> = if behind_entries_only { vec![Box::new(EntriesOnly::new()), Box::new(PagedResults::new(page))] } else { vec![Box::new(PagedResults::new(page))] };
+                let f = String::from_utf8_lossy(&spec2.filter_str).into_owned();
+                match world::watchdog(async {
+                    let mut st = ldap.streaming_search_with(adapters, &spec2.base, world::scope_of(spec2.scope), &f, spec2.attrs.clone()).await?;
+                    let mut n = 0;
+                    while let Some(_e) = st.next().await? {
+                        n += 1;
+                    }
+                    let r = st.finish().await;
+                    Ok::<_, ldap3::LdapError>(format!("items={} rc={}", n, r.rc))
+                })
+                .await
+                {
+                    Ok(Ok(s)) => s,
+                    Ok(Err(e)) => format!("Err({})", e),
+                    Err(()) => "Hung".into(),
+                }
+            }
+            1 => {
+                let exop: ldap3::exop::Exop = match typed_kind % 3 {
+                    0 => ldap3::exop::PasswordModify { user_id: if pm.0 { Some(&pm_vals2.0) } else { None }, old_pass: if pm.1 { Some(&pm_vals2.1) } else { None }, new_pass: if pm.2 { Some(&pm_vals2.2) } else { None } }.into(),
+                    1 => ldap3::exop::WhoAmI.into(),
+                    _ => ldap3::exop::StartTxn.into(),
+                };
+                match world::watchdog(ldap.extended(exop)).await {
+                    Ok(Ok(r)) => format!("rc={}", (r.1).rc),
+                    Ok(Err(e)) => format!("Err({})", e),
+                    Err(()) => "Hung".into(),
+                }
+            }
+            _ => {
+                let rc: RawControl = match typed_kind {
+                    0 => ldap3::controls::ProxyAuth { authzid: authz2.clone() }.into(),
+                    1 => {
+                        if critical {
+                            ldap3::controls::MakeCritical::critical(ldap3::controls::ManageDsaIt).into()
+                        } else {
+                            ldap3::controls::ManageDsaIt.into()
+                        }
+                    }
+                    2 => ldap3::controls::PreRead::new(rd2.iter().map(|s| s.as_str()).collect::<Vec<_>>()).into(),
+                    3 => ldap3::controls::PostRead::new(rd2.iter().map(|s| s.as_str()).collect::<Vec<_>>()).into(),
+                    4 => ldap3::controls::RelaxRules.into(),
+                    _ => ldap3::controls::TxnSpec { txn_id: &authz2 }.into(),
+                };
+                ldap.with_controls(vec![rc]);
+                match world::watchdog(ldap.delete(&format!("op={},b=normal", tok))).await {
+                    Ok(Ok(r)) => format!("rc={}", r.rc),
+                    Ok(Err(e)) => format!("Err({})", e),
+                    Err(()) => "Hung".into(),
+                }
+            }
+        };
+        drop(ldap);
+        let seen = srv.await.unwrap_or_default();
+        let _ = c.driver.await;
+        (outcome, seen)
+    });
+    if verbose {
+        println!("kind {} typed {} -> {} ; {} requests", kind, typed_kind, outcome, seen.len());
+    }
+    if outcome.starts_with("Err(") || outcome == "Hung" {
+        rep.violation(format!("C02:call-failed:composed-{}", ["paged-search", "typed-exop", "typed-control"][kind as usize]), outcome.clone(), replay.clone());
+    }
+    let seq_of_strings = |v: &[String]| Node::C { class: UNIV, tag: 16, kids: v.iter().map(|a| ber::octets(a.as_bytes())).collect() };
+    match kind {
+        0 => {
+            let want = Call::Search(spec.clone()).expected();
+            let pages_expected = (n_entries + page as usize - 1) / page as usize;
+            if seen.len() != pages_expected {
+                rep.violation("C02:paged:number-of-page-requests", format!("{} entries in pages of {}: {} requests seen", n_entries, page, seen.len()), replay.clone());
+            }
+            let mut off = 0usize;
+            for (k, m) in seen.iter().enumerate() {
+                let all = m.controls.clone().unwrap_or_default();
+                let others: Vec<Ctl> = all.iter().filter(|c| c.oid != PAGED_OID.as_bytes()).cloned().collect();
+                let paged: Vec<&Ctl> = all.iter().filter(|c| c.oid == PAGED_OID.as_bytes()).collect();
+                let others_opt = if others.is_empty() { None } else { Some(others) };
+                let want_ctrls = if ctrls.is_empty() { None } else { Some(ctrls.clone()) };
+                let fake = ReqMsg { id: m.id, op: m.op.clone(), controls: others_opt, all_lengths_minimal: m.all_lengths_minimal };
+                let mut sub = Report::new();
+                compare_request("paged-search", &want, &want_ctrls, &fake, &mut sub, &replay);
+                for v in sub.violations.values() {
+                    rep.violation(format!("{}:page-{}", v.signature, if k == 0 { "1" } else { "n" }), v.detail.clone(), replay.clone());
+                }
+                match paged.as_slice() {
+                    [c] => match c.val.as_ref().and_then(|v| parse_paged(v)) {
+                        Some((size, cookie)) => {
+                            if size != page as i64 {
+                                rep.violation("C02:paged:page-size-differs-from-the-requested-one", format!("page {}: size {} requested {}", k + 1, size, page), replay.clone());
+                            }
+                            let want_cookie = if k == 0 { vec![] } else { off.to_string().into_bytes() };
+                            if cookie != want_cookie {
+                                rep.violation("C02:paged:cookie-is-not-the-one-last-returned", format!("page {}: cookie {:?} expected {:?}", k + 1, cookie, want_cookie), replay.clone());
+                            }
+                        }
+                        None => rep.violation("C02:paged:paging-control-value-undecodable", format!("page {}", k + 1), replay.clone()),
+                    },
+                    _ => rep.violation("C02:paged:not-exactly-one-paging-control", format!("page {}: {}", k + 1, paged.len()), replay.clone()),
+                }
+                off = (off + page as usize).min(n_entries);
+                rep.count("paged_page_requests_checked", 1);
+            }
+        }
+        1 => {
+            let m = match seen.first() {
+                Some(m) => m,
+                None => {
+                    rep.violation("C02:wire-message-count", "typed exop: nothing on the wire".to_string(), replay.clone());
+                    rep.case(None);
+                    return;
+                }
+            };
+            let (want_name, want_val): (&str, Option<Node>) = match typed_kind % 3 {
+                0 => {
+                    let mut kids = vec![];
+                    if pm.0 {
+                        kids.push(ber::ctx_prim(0, pm_vals.0.as_bytes()));
+                    }
+                    if pm.1 {
+                        kids.push(ber::ctx_prim(1, pm_vals.1.as_bytes()));
+                    }
+                    if pm.2 {
+                        kids.push(ber::ctx_prim(2, pm_vals.2.as_bytes()));
+                    }
+                    ("1.3.6.1.4.1.4203.1.11.1", Some(ber::seq(kids)))
+                }
+                1 => ("1.3.6.1.4.1.4203.1.11.3", None),
+                _ => ("1.3.6.1.1.21.1", None),
+            };
+            match &m.op {
+                Req::Extended { name, val } => {
+                    if name != want_name.as_bytes() {
+                        rep.violation("C02:request:extended:name", format!("{:?} expected {}", String::from_utf8_lossy(name), want_name), replay.clone());
+                    }
+                    let got = val.as_ref().map(|v| ber::decode_exact(v).map(|x| x.0));
+                    let ok = match (&want_val, &got) {
+                        (None, None) => true,
+                        // an all-absent PasswordModify may omit the value or send an empty SEQUENCE
+                        (Some(Node::C { kids, .. }), None) if kids.is_empty() => true,
+                        (Some(w), Some(Ok(g))) => w == g,
+                        _ => false,
+                    };
+                    if !ok {
+                        rep.violation(format!("C02:request:extended:value:{}", ["PasswordModify", "WhoAmI", "StartTxn"][(typed_kind % 3) as usize]), format!("fields present {:?}: got {:?} expected {:?}", pm, got, want_val), replay.clone());
+                    }
+                }
+                other => rep.violation("C02:request:extended-sent-as-something-else", format!("{:?}", other.kind()), replay.clone()),
+            }
+            rep.count("typed_exops_checked", 1);
+        }
+        _ => {
+            let m = match seen.first() {
+                Some(m) => m,
+                None => {
+                    rep.violation("C02:wire-message-count", "typed control: nothing on the wire".to_string(), replay.clone());
+                    rep.case(None);
+                    return;
+                }
+            };
+            let (oid, crit, val): (&str, bool, Option<Vec<u8>>) = match typed_kind {
+                0 => ("2.16.840.1.113730.3.4.18", true, Some(authz.clone().into_bytes())),
+                1 => ("2.16.840.1.113730.3.4.2", critical, None),
+                2 => ("1.3.6.1.1.13.1", false, Some(ber::encode_min(&seq_of_strings(&rd_attrs)))),
+                3 => ("1.3.6.1.1.13.2", false, Some(ber::encode_min(&seq_of_strings(&rd_attrs)))),
+                4 => ("1.3.6.1.4.1.4203.666.5.12", false, None),
+                _ => ("1.3.6.1.1.21.2", true, Some(authz.clone().into_bytes())),
+            };
+            let want = Some(vec![Ctl { oid: oid.as_bytes().to_vec(), crit, val }]);
+            if m.controls != want {
+                rep.violation(format!("C02:controls:typed:{}", ["ProxyAuth", "ManageDsaIt", "PreRead", "PostRead", "RelaxRules", "TxnSpec"][typed_kind as usize]), format!("got {} expected {}", trunc(&m.controls), trunc(&want)), replay.clone());
+            }
+            let _ = CTX;
+            rep.count("typed_controls_checked", 1);
+        }
+    }
+    if i < 3 {
+        let kind_name = ["paged-search", "typed-exop", "typed-control"][kind as usize];
+        rep.sample(json!({"lane":"composed_requests","case":i,"kind":kind_name,"requests_seen":seen.len(),"outcome":outcome}));
+    }
+    rep.case(Some(fnv(format!("{}{}{:?}{:?}{}{}", kind, typed_kind, pm, spec.opts, n_entries, page).as_bytes())));
+}
+
+pub fn composed_requests(ctx: &Ctx) -> Report {
+    let n = ctx.n(20_000, 10_000_000);
+    par_cases(ctx, "composed_requests", n, ctx.secs(20, 400), |i, rng, rep| run_composed_case(i, rng, rep, false))
+}
+
 // ---------------- modifiers ----------------
 
 #[derive(Clone, Debug)]
